@@ -13,7 +13,7 @@ RULE = ("random LP-expressible CQMs: 0-14 BINARY/INTEGER/REAL variables with exp
         "offsets, empty objective / empty lhs, constraint labels equal to variable labels; loads(dumps(cqm)) compared: variables, vartypes, "
         "bounds, labels exactly (worker), objective / lhs / sense / rhs coefficient-wise and energies at 2 samples in Coq against the term "
         "model; the recorded sequence of _WidthLimitedFile.write calls is wrapped by the Coq model and compared with the text, tokens of the "
-        "text = tokens of the writes. Refusal stream (22%): SPIN variable (used/unused), soft constraint, non-string / empty / 256+ / "
+        "text = tokens of the writes. Magnitude stream (12%): right-hand sides +-1e29..1.8e308 and variable bounds at the vartype limits (+-1e30 REAL, +-(2^53-1) INTEGER) for all senses, sense/rhs/bounds compared exactly, energies not probed. Refusal stream (22%): SPIN variable (used/unused), soft constraint, non-string / empty / 256+ / "
         "bad-first-character / out-of-alphabet label on a variable or a constraint, plus controls: dump must raise exactly when the model "
         "says so and leave nothing loadable. Labels in the reported defect regions (leading ';', LP keywords, inf/nan prefixes, adjacent "
         "subject/to) are kept out of the random stream. non-trivial = model has a term or a constraint; distinct by case JSON")
